@@ -1018,7 +1018,7 @@ LEVEL_TEXT = ('Proof (Coq, carrier R, all lengths / shapes / tree depths): for c
               'exponents {1,2,inf,3,4} x dtypes x C/F data x sizes 0..60000 x boundary flags x nested trees.')
 LEVEL_NOTE = ('Validated, not proved: NumPy/BLAS kernels and float rounding (compared to rtol 1e-10, float32 1e-5); '
               'apply_on_boundary modelled as an outer product of per-axis vectors; non-integer exponents (1.5, 2.5) and '
-              'complex product spaces only probed; custom inner/norm/dist are pass-through (delegation probed); the '
+              'norm/dist of complex product spaces only probed (their inner product is modelled and proved); custom inner/norm/dist are pass-through (delegation probed); the '
               'Q-instance p-th root (exact on perfect powers, else 2^-64 floor approximations) stands for the real root. '
               'Eight recorded findings are modelled through measured variant switches (quirks) or excluded inputs and '
               'reproduced by probes.  Axioms: classical reals + functional extensionality as printed.')
